@@ -405,7 +405,232 @@ def skeletons(path):
         if not toks or toks[-1] != ("ret",):
             toks.append(("ret",))
         res[m] = toks
-    return res, relevant
+    return res, relevant, aliasing
+
+
+# ------------------------------------------------------------------------------------------------
+# key level: ecdsa.Public_key.verifies, ecdsa.Private_key.sign, keys.VerifyingKey.precompute / _raw_encode /
+# _compressed_encode.  Objects: `key` = the key object whose field `point` refers to a point object (loads / stores of
+# that field are R/W key point), `self` = the curve generator G (`self.generator`), `other` = the point object just
+# loaded from the field.
+class KeyWalker:
+    def __init__(self, relevant, aliasing, fname):
+        self.relevant, self.aliasing, self.fname = relevant, aliasing, fname
+        self.out = []
+        self.gen_names = set()      # locals bound to the generator
+        self.res_names = set()      # locals bound to the result of a call that may return the generator itself
+        self.fresh_names = set()    # locals bound to certainly fresh results
+
+    def bad(self, node, what):
+        raise Unsupported("key level %s line %d: %s" % (self.fname, getattr(node, "lineno", 0), what))
+
+    def is_ptr(self, e):
+        """self.point / self.pubkey.point"""
+        if not (isinstance(e, ast.Attribute) and e.attr == "point"):
+            return False
+        v = e.value
+        if isinstance(v, ast.Name) and v.id == "self":
+            return True
+        return isinstance(v, ast.Attribute) and v.attr == "pubkey" and isinstance(v.value, ast.Name) and v.value.id == "self"
+
+    def is_gen(self, e):
+        if isinstance(e, ast.Name) and e.id in self.gen_names:
+            return True
+        if isinstance(e, ast.Attribute) and e.attr == "generator":
+            v = e.value
+            if isinstance(v, ast.Name) and v.id == "self":
+                return True
+            return isinstance(v, ast.Attribute) and v.attr == "public_key" and isinstance(v.value, ast.Name) and v.value.id == "self"
+        return False
+
+    def operand(self, e):
+        """evaluate a point-valued operand: returns 'self' (generator), 'other' (object loaded from the field),
+        'res' (result that may be the generator itself), 'fresh', or None (not a point)"""
+        if self.is_gen(e):
+            return "self"
+        if self.is_ptr(e):
+            self.out.append(("W" if isinstance(e.ctx, ast.Store) else "R", "key", "point"))
+            return "other"
+        if isinstance(e, ast.Name):
+            if e.id in self.res_names:
+                return "res"
+            if e.id in self.fresh_names:
+                return "fresh"
+            return None
+        k = self.expr(e)
+        return k
+
+    def call(self, recv, m):
+        if recv in ("self", "other"):
+            if m in self.relevant:
+                self.out.append(("call", recv, m))
+            return "res" if (m in self.aliasing and recv == "self") else ("fresh" if m in self.aliasing or True else None)
+        if recv == "res":
+            if m in self.relevant:
+                self.out.append(("callR", "self", m))
+            return "res" if m in self.aliasing else "fresh"
+        return "fresh"
+
+    def expr(self, e):
+        """emits tokens in evaluation order; returns the operand kind of the value (see `operand`)"""
+        if e is None or isinstance(e, (ast.Constant,)):
+            return None
+        if self.is_gen(e) or self.is_ptr(e) or isinstance(e, ast.Name):
+            return self.operand(e)
+        if isinstance(e, ast.Call):
+            f = e.func
+            if isinstance(f, ast.Attribute):
+                # static PointJacobi.from_affine(<point>, True)
+                if f.attr == "from_affine":
+                    if not e.args:
+                        self.bad(e, "from_affine without argument")
+                    k = self.operand(e.args[0])
+                    for a in e.args[1:]:
+                        self.expr(a)
+                    if k in ("self", "other"):
+                        self.out.append(("call", k, "from_affine"))
+                    elif k == "res":
+                        self.out.append(("callR", "self", "from_affine"))
+                    return "fresh"
+                recv = self.operand(f.value) if (self.is_gen(f.value) or self.is_ptr(f.value) or isinstance(f.value, (ast.Name, ast.Call, ast.BinOp))) else None
+                if recv is None and not isinstance(f.value, ast.Name):
+                    self.expr(f.value)
+                for a in e.args:
+                    self.expr(a)
+                for kw in e.keywords:
+                    self.expr(kw.value)
+                if recv in ("self", "other", "res"):
+                    if f.attr == "order" or f.attr == "curve":
+                        return None
+                    return self.call(recv, f.attr)
+                return None
+            for a in e.args:
+                self.expr(a)
+            for kw in e.keywords:
+                self.expr(kw.value)
+            return None
+        if isinstance(e, ast.BinOp):
+            if isinstance(e.op, ast.Mult):
+                # int * point  /  point * int
+                kl = self.operand(e.left) if (self.is_gen(e.left) or self.is_ptr(e.left) or isinstance(e.left, ast.Name)) else self.expr(e.left)
+                kr = self.operand(e.right) if (self.is_gen(e.right) or self.is_ptr(e.right) or isinstance(e.right, ast.Name)) else self.expr(e.right)
+                if kr in ("self", "other", "res"):
+                    return self.call(kr, "__rmul__")
+                if kl in ("self", "other", "res"):
+                    return self.call(kl, "__mul__")
+                return None
+            kl = self.expr(e.left) if not (self.is_gen(e.left) or self.is_ptr(e.left)) else self.operand(e.left)
+            kr = self.expr(e.right) if not (self.is_gen(e.right) or self.is_ptr(e.right)) else self.operand(e.right)
+            if isinstance(e.op, ast.Add) and (kl in ("self", "other", "res") or kr in ("self", "other", "res")):
+                if kl in ("self", "other"):
+                    return self.call(kl, "__add__")
+                if "__add__" in self.relevant:
+                    self.out.append(("callR", "self", "__add__"))
+                return "res"
+            return None
+        if isinstance(e, ast.Compare):
+            kl = self.expr(e.left) if not (self.is_gen(e.left) or self.is_ptr(e.left)) else self.operand(e.left)
+            for c in e.comparators:
+                self.expr(c)
+            if any(isinstance(o, (ast.Eq, ast.NotEq)) for o in e.ops) and kl in ("self", "other", "res"):
+                self.call(kl, "__eq__")
+            return None
+        if isinstance(e, ast.BoolOp):
+            self.expr(e.values[0])
+            for v in e.values[1:]:
+                self.region(lambda v=v: self.expr(v), lambda: None)
+            return None
+        if isinstance(e, ast.UnaryOp):
+            self.expr(e.operand); return None
+        if isinstance(e, ast.Attribute):
+            self.expr(e.value); return None
+        if isinstance(e, (ast.Tuple, ast.List)):
+            for x in e.elts:
+                self.expr(x)
+            return None
+        if isinstance(e, ast.Subscript):
+            self.expr(e.value); self.expr(e.slice); return None
+        if isinstance(e, ast.IfExp):
+            self.expr(e.test)
+            self.region(lambda: self.expr(e.body), lambda: self.expr(e.orelse))
+            return None
+        self.bad(e, "unsupported expression %s" % type(e).__name__)
+
+    def region(self, a, b):
+        save = self.out
+        self.out = []; a(); ta = self.out
+        self.out = []; b(); tb = self.out
+        self.out = save
+        if ta or tb:
+            self.out.append(("ifS",)); self.out += ta; self.out.append(("ifE",)); self.out += tb; self.out.append(("ifX",))
+
+    def stmts(self, body):
+        for st in body:
+            self.stmt(st)
+
+    def stmt(self, st):
+        if isinstance(st, ast.Expr):
+            if isinstance(st.value, ast.Constant):
+                return
+            self.expr(st.value)
+        elif isinstance(st, ast.Assign):
+            if len(st.targets) != 1:
+                self.bad(st, "multiple assignment targets")
+            t = st.targets[0]
+            if self.is_ptr(t):
+                self.expr(st.value)
+                self.out.append(("W", "key", "point"))
+                return
+            k = self.expr(st.value) if not (self.is_gen(st.value) or self.is_ptr(st.value)) else self.operand(st.value)
+            if isinstance(t, ast.Name):
+                for sset in (self.gen_names, self.res_names, self.fresh_names):
+                    sset.discard(t.id)
+                if k == "self":
+                    self.gen_names.add(t.id)
+                elif k == "res":
+                    self.res_names.add(t.id)
+                elif k == "fresh":
+                    self.fresh_names.add(t.id)
+                elif k == "other":
+                    self.bad(st, "a local alias of the key's point object")
+            elif isinstance(t, ast.Tuple):
+                pass
+            else:
+                self.bad(st, "unsupported assignment target")
+        elif isinstance(st, ast.Return):
+            self.expr(st.value); self.out.append(("ret",))
+        elif isinstance(st, ast.Raise):
+            self.out.append(("ret",))
+        elif isinstance(st, ast.If):
+            self.expr(st.test)
+            # names bound in only one branch keep the weaker classification
+            self.region(lambda: self.stmts(st.body), lambda: self.stmts(st.orelse))
+        elif isinstance(st, ast.Pass):
+            pass
+        else:
+            self.bad(st, "unsupported statement %s" % type(st).__name__)
+
+
+def key_skeletons(relevant, aliasing):
+    out = {}
+    srcs = {"ecdsa.py": [("Public_key", "verifies"), ("Private_key", "sign")],
+            "keys.py": [("VerifyingKey", "precompute"), ("VerifyingKey", "_raw_encode"), ("VerifyingKey", "_compressed_encode")]}
+    for fn, items in srcs.items():
+        tree = ast.parse(open(os.path.join(common.SRC, "ecdsa", fn)).read())
+        for cls, m in items:
+            f = None
+            for n in _cls(tree, cls).body:
+                if isinstance(n, ast.FunctionDef) and n.name == m:
+                    f = n
+            if f is None:
+                raise Unsupported("%s.%s not found" % (cls, m))
+            w = KeyWalker(relevant, aliasing, "%s.%s" % (cls, m))
+            w.stmts(f.body)
+            toks = list(w.out)
+            if not toks or toks[-1] != ("ret",):
+                toks.append(("ret",))
+            out["key_" + m.strip("_")] = toks
+    return out
 
 
 def _lean_tok(t):
@@ -466,7 +691,7 @@ def vk_precompute_shape():
 
 
 def generate():
-    sk, relevant = skeletons(source_path())
+    sk, relevant, aliasing = skeletons(source_path())
     L = ["-- GENERATED by harness/translate/gen_access.py; do not edit. source: src/ecdsa/ellipticcurve.py class PointJacobi",
          "import Model.Access",
          "/-! shared-field access skeleton of every PointJacobi method that touches `__coords` / `__precompute` (directly or",
@@ -487,6 +712,13 @@ def generate():
         L.append('  | "%s" => %s' % (m, lean_name(m)))
     L.append("  | _ => []")
     L.append("")
+    ks = key_skeletons(relevant, aliasing)
+    L.append("/-! key level (ecdsa.Public_key.verifies, ecdsa.Private_key.sign, keys.VerifyingKey.precompute, _raw_encode,")
+    L.append("_compressed_encode): `key` = the key object (field `point`), `self` = the curve generator, `other` = the point object")
+    L.append("just loaded from the field -/")
+    for m in sorted(ks):
+        L.append("def %s : List Tok :=\n  [%s]" % (m, ", ".join(_lean_tok(t) for t in ks[m])))
+        L.append("")
     vk = vk_precompute_shape()
     L.append("/-- keys.py VerifyingKey.precompute: the point object is swapped by ONE attribute store (shape checked by the translator) -/")
     L.append("def vk_precompute : List String := [%s]" % ", ".join('"%s"' % x for x in vk))
